@@ -115,7 +115,7 @@ def run(sess, configs=None, fam='walker'):
             sess.violated(name, role, 'limit=%d, %d matching rows, %d handed on: %r' % (lim, tot, len(accepted), accepted),
                           {'limit': lim, 'total': tot, 'accepted': accepted}, cli_replay(fs, m, lim, ordered, nroots), fam)
 
-        n, complete = ex.explore(runp, on_path, time_budget=(150 if quick else 2400))
+        n, complete = ex.explore(runp, on_path, time_budget=(300 if quick else 2400))
         name = '%s M=%d roots=%d %s%s' % (fam, M, nroots, 'ordered' if ordered else 'unordered', ' (symbolic WHERE verdicts)' if verdicts else '')
         if not complete:
             sess.inconclusive(name, 'time budget exceeded after %d paths' % n, fam)
